@@ -289,6 +289,23 @@ impl<'tcx, 'a> Cx<'tcx, 'a> {
                 let _ = write!(extra, ",{{\"int\":{}}}", esc(&val));
             }
         }
+        // pointer constants to statics (e.g. `encoding_rs::UTF_8`): name the static
+        if extra.is_empty() {
+            if let Const::Val(rustc_middle::mir::ConstValue::Scalar(rustc_middle::mir::interpret::Scalar::Ptr(ptr, _)), _) = c {
+                let aid = ptr.provenance.alloc_id();
+                if let Some(ga) = self.tcx.try_get_global_alloc(aid) {
+                    match ga {
+                        rustc_middle::mir::interpret::GlobalAlloc::Static(did) => {
+                            let _ = write!(extra, ",{{\"static\":{}}}", esc(&dp(self.tcx, did)));
+                        }
+                        rustc_middle::mir::interpret::GlobalAlloc::Function { instance, .. } => {
+                            let _ = write!(extra, ",{{\"fnptr\":{}}}", esc(&dp(self.tcx, instance.def_id())));
+                        }
+                        _ => {}
+                    }
+                }
+            }
+        }
         // string constants: evaluate (also associated consts like `<T as Request>::METHOD`) and give the text
         if extra.is_empty() {
             if let ty::Ref(_, inner, _) = ty.kind() {
